@@ -1,14 +1,17 @@
 package hlib
 
 import (
+	"bufio"
 	"bytes"
 	"errors"
 	"fmt"
 	"io"
 	"math/rand"
+	"os"
 	"reflect"
 	"strconv"
 	"strings"
+	"sync"
 )
 
 // Writer / Reader are what each generated shape package registers.
@@ -317,6 +320,75 @@ func RunShapeCases(path string, out io.Writer) error {
 		}
 		return "UNKNOWN-KIND " + kind
 	})
+}
+
+// RunShapeCasesParallel runs every case of the file in its own goroutine
+// (at most `workers` at a time), `repeat` times over, so that independent
+// writer/reader instances share the process-wide buffer pools concurrently.
+// For each id the result of every repetition must be identical; the output has
+// one line per id: the common result, or "DIVERGED a ||| b".
+func RunShapeCasesParallel(path string, out io.Writer, workers, repeat int) error {
+	data, err := os.ReadFile(path)
+	if err != nil {
+		return err
+	}
+	type job struct {
+		id, kind string
+		toks     []string
+	}
+	var jobs []job
+	for _, line := range strings.Split(string(data), "\n") {
+		line = strings.TrimSpace(line)
+		if line == "" || line[0] == '#' {
+			continue
+		}
+		parts := strings.Fields(line)
+		if len(parts) < 2 || parts[1] == "shape" {
+			continue
+		}
+		jobs = append(jobs, job{parts[0], parts[1], parts[2:]})
+	}
+	results := make([][]string, len(jobs))
+	for i := range results {
+		results[i] = make([]string, repeat)
+	}
+	sem := make(chan struct{}, workers)
+	var wg sync.WaitGroup
+	f := safe(func(kind string, t *Toks) string {
+		switch kind {
+		case "write":
+			return CaseWrite(t)
+		case "read":
+			return CaseRead(t)
+		}
+		return "UNKNOWN-KIND " + kind
+	})
+	for r := 0; r < repeat; r++ {
+		for i := range jobs {
+			wg.Add(1)
+			go func(i, r int) {
+				defer wg.Done()
+				sem <- struct{}{}
+				defer func() { <-sem }()
+				j := jobs[i]
+				results[i][r] = f(j.kind, &Toks{T: append([]string(nil), j.toks...)})
+			}(i, r)
+		}
+	}
+	wg.Wait()
+	w := bufio.NewWriterSize(out, 1<<20)
+	defer w.Flush()
+	for i, j := range jobs {
+		res := results[i][0]
+		for r := 1; r < repeat; r++ {
+			if results[i][r] != res {
+				res = "DIVERGED " + results[i][0] + " ||| " + results[i][r]
+				break
+			}
+		}
+		fmt.Fprintf(w, "%s %s\n", j.id, res)
+	}
+	return nil
 }
 
 var _ = bytes.NewReader
